@@ -252,7 +252,13 @@ pub fn json_object(pairs: &[(String, String)], spaced: bool) -> String {
         if spaced {
             o.push_str("\n  ");
         }
-        o.push_str(&json_str(k, false));
+        // JSON allows escapes in keys as in any string: in the spaced style every key of even length
+        // gets its first character written as \uXXXX ("\u006dappings", "\u0073ections", ...)
+        if spaced && k.len() % 2 == 0 && k.is_ascii() && !k.is_empty() {
+            o.push_str(&format!("\"\\u{:04x}{}\"", k.as_bytes()[0], &k[1..]));
+        } else {
+            o.push_str(&json_str(k, false));
+        }
         o.push(':');
         if spaced {
             o.push(' ');
